@@ -55,6 +55,14 @@ CHECKS = {
              "24 documented constraint kinds and run through Validate and CompileProfile+ValidateCompiled, comparing the set "
              "of reported target nodes. Random deep formulas on random graphs are validated by TLC (LogicTrace) against Sat.",
         ref="DESIGN.md §6 C01", technique="TLA+ transcription + exhaustive small-scope enumeration (TLC) replayed into the code; TLC trace validation of random cases"),
+    "C16": dict(
+        text="spec/Paths.tla transcribes the committed PEG (plus end of input) as a deterministic recogniser over a 14-symbol "
+             "character-class alphabet, in two readings (committed vs documented); TLC enumerates every symbol string up to "
+             "length 5 (full alphabet, thorough) / 6 (operators), every token string (predicates, ^, @type, operators, "
+             "parentheses, spaces) up to 6 tokens, and judges random sentences with all spacing/parenthesis variants and "
+             "their single-edit mutations; every string on which both readings agree is concretised and given to the real "
+             "ParsePath: accept/reject and the normalised tree must match, and a sample goes end-to-end through CompileProfile.",
+        ref="DESIGN.md §6 C16", technique="TLA+ transcription of the grammar + exhaustive string enumeration (TLC) replayed into the parser"),
 }
 
 NOT_YET = "no check registered yet for this property in the current state of the framework (design in DESIGN.md §6)"
